@@ -608,6 +608,83 @@ class Model:
         return out
 
     # --------------------------------------------------- constant folding
+    def regex_of(self, expr, fi=None, m=None, _depth=0):
+        """(pattern, flags, re.compile call) of an expression denoting a
+        compiled regular expression: re.compile(<const>, flags) itself, or
+        a local / module-level name bound to one.  None when unknown."""
+        import re as _re
+        m = m or (fi.module if fi is not None else None)
+        if _depth > 4 or expr is None:
+            return None
+        if isinstance(expr, ast.Call) and norm(expr.func) in (
+                're.compile', 'compile') and expr.args:
+            ok, pat = self.fold(expr.args[0], fi, m)
+            if not ok or not isinstance(pat, str):
+                return None
+            flags = 0
+            for a in expr.args[1:] + [k.value for k in expr.keywords]:
+                for x in ast.walk(a):
+                    if isinstance(x, ast.Attribute) and x.attr.isupper() \
+                            and hasattr(_re, x.attr):
+                        flags |= int(getattr(_re, x.attr))
+            return pat, flags, expr
+        if isinstance(expr, ast.Name):
+            if fi is not None and not isinstance(fi, _ModuleCtx):
+                defs = [d for d in self.local_defs(fi, expr.id)]
+                if defs:
+                    if len(defs) == 1 and isinstance(defs[0], ast.AST):
+                        return self.regex_of(defs[0], fi, m, _depth + 1)
+                    if defs == ['param']:
+                        return self.regex_of(
+                            self.param_default(fi, expr.id), None, m,
+                            _depth + 1)
+                    return None
+            vals = m.globals.get(expr.id, []) if m is not None else []
+            if len(vals) == 1:
+                return self.regex_of(vals[0], None, m, _depth + 1)
+        return None
+
+    def regex_method_of(self, expr, fi=None, m=None, _depth=0):
+        """(method name, regex_of the pattern object) for an expression
+        denoting a bound method of a compiled pattern -- `RX.search`,
+        a parameter whose default is one, a module-level name bound to
+        one.  None when it is not."""
+        m = m or (fi.module if fi is not None else None)
+        if _depth > 4 or expr is None:
+            return None
+        if isinstance(expr, ast.Attribute):
+            rx = self.regex_of(expr.value, fi, m)
+            if rx is not None:
+                return expr.attr, rx
+            return None
+        if isinstance(expr, ast.Name):
+            if fi is not None and not isinstance(fi, _ModuleCtx):
+                defs = self.local_defs(fi, expr.id)
+                if defs:
+                    if defs == ['param']:
+                        return self.regex_method_of(
+                            self.param_default(fi, expr.id), None, m,
+                            _depth + 1)
+                    if len(defs) == 1 and isinstance(defs[0], ast.AST):
+                        return self.regex_method_of(defs[0], fi, m,
+                                                    _depth + 1)
+                    return None
+            vals = m.globals.get(expr.id, []) if m is not None else []
+            if len(vals) == 1:
+                return self.regex_method_of(vals[0], None, m, _depth + 1)
+        return None
+
+    def returned_regex(self, fi):
+        """regex_of the value a function returns (all returns agree)."""
+        found = []
+        for n in own_nodes(fi.node):
+            if isinstance(n, ast.Return) and n.value is not None:
+                found.append(self.regex_of(n.value, fi))
+        if not found or any(f is None for f in found) or \
+                len({f[:2] for f in found}) != 1:
+            return None
+        return found[0]
+
     def fold(self, expr, fi=None, m=None, _depth=0):
         """Fold a constant expression (str/bytes/int/tuple/list/dict of
         constants, + on strings/tuples, names bound once to constants).
